@@ -137,12 +137,13 @@ func main() {
 				}
 				for _, sp := range gd.Specs {
 					vs := sp.(*ast.ValueSpec)
-					for _, n := range vs.Names {
+					for i, n := range vs.Names {
 						if n.Name == "_" {
 							continue
 						}
 						vars[n.Name] = true
-						res.Vars = append(res.Vars, pkgVar{Pkg: rel, Name: n.Name, File: relf})
+						cl := len(vs.Values) == len(vs.Names) && constLike(vs.Values[i])
+						res.Vars = append(res.Vars, pkgVar{Pkg: rel, Name: n.Name, File: relf, ConstLike: cl})
 					}
 				}
 			}
@@ -207,6 +208,10 @@ func scanFunc(fset *token.FileSet, pkg, file string, fd *ast.FuncDecl, vars map[
 			for _, l := range x.Lhs {
 				id, ok := l.(*ast.Ident)
 				if !ok {
+					// x[i] = …, x.f = …, *x = … with x a package-level variable change what it refers to
+					if root := rootIdent(l); root != nil && vars[root.Name] && !shadow[root.Name] {
+						res.Writes = append(res.Writes, write{pkg, root.Name + "[…]", file, fset.Position(root.Pos()).Line, fd.Name.Name})
+					}
 					continue
 				}
 				if x.Tok == token.DEFINE {
@@ -241,6 +246,39 @@ func scanFunc(fset *token.FileSet, pkg, file string, fd *ast.FuncDecl, vars map[
 		}
 		return true
 	})
+}
+
+// constLike: an initialiser whose value no code can change afterwards other than by assigning the variable
+// itself (which is reported as a write): literals of basic types, arithmetic/concatenation of those, and the
+// immutable values of errors.New, fmt.Errorf and regexp.MustCompile
+func constLike(e ast.Expr) bool {
+	switch x := e.(type) {
+	case *ast.BasicLit:
+		return true
+	case *ast.ParenExpr:
+		return constLike(x.X)
+	case *ast.UnaryExpr:
+		return x.Op != token.AND && constLike(x.X)
+	case *ast.BinaryExpr:
+		return constLike(x.X) && constLike(x.Y)
+	case *ast.Ident:
+		return x.Name == "true" || x.Name == "false"
+	case *ast.CallExpr:
+		if sel, ok := x.Fun.(*ast.SelectorExpr); ok {
+			if pk, ok := sel.X.(*ast.Ident); ok {
+				name := pk.Name + "." + sel.Sel.Name
+				if name == "errors.New" || name == "fmt.Errorf" || name == "regexp.MustCompile" {
+					for _, a := range x.Args {
+						if !constLike(a) {
+							return false
+						}
+					}
+					return true
+				}
+			}
+		}
+	}
+	return false
 }
 
 // predArity: 1 for func(uint8|byte) bool, 2 for func(uint8|byte, bool) bool, 0 otherwise
@@ -324,6 +362,25 @@ func evalPredicates(res *result) {
 		f := strings.Fields(line)
 		if len(f) == 2 && len(f[1]) == 256 {
 			res.Tables[f[0]] = f[1]
+		}
+	}
+}
+
+func rootIdent(e ast.Expr) *ast.Ident {
+	for {
+		switch x := e.(type) {
+		case *ast.Ident:
+			return x
+		case *ast.IndexExpr:
+			e = x.X
+		case *ast.SelectorExpr:
+			e = x.X
+		case *ast.StarExpr:
+			e = x.X
+		case *ast.ParenExpr:
+			e = x.X
+		default:
+			return nil
 		}
 	}
 }
@@ -431,11 +488,17 @@ func printCoq(res result) {
 		fmt.Println("  nth (N.to_nat (code c)) (if first then g_tbl_isOkLongOpt_first else g_tbl_isOkLongOpt_notfirst) false.")
 	}
 	fmt.Println()
-	fmt.Println("(** package-level variables of the library (name, package) and the functions assigning them *)")
+	fmt.Println("(** package-level variables of the library (name, package) whose initial value is not a constant-like immutable value, and the functions assigning any package-level variable *)")
 	fmt.Println("Definition g_package_vars : list (String.string * String.string) := [")
-	for i, v := range res.Vars {
+	var store []pkgVar
+	for _, v := range res.Vars {
+		if !v.ConstLike {
+			store = append(store, v)
+		}
+	}
+	for i, v := range store {
 		sep := ";"
-		if i == len(res.Vars)-1 {
+		if i == len(store)-1 {
 			sep = ""
 		}
 		fmt.Printf("  (%q, %q)%s\n", v.Name, v.Pkg, sep)
